@@ -503,6 +503,43 @@ def r05_4(ctx: Ctx) -> None:
                   "that never finishes in practice", construct="NumCyclesPower bound")
 
 
+def r05_5(ctx: Ctx, closure: Dict[str, Func]) -> None:
+    """no recursion in the read-mode closure (a cycle in the resolved call graph would need its own termination argument)."""
+    graph = {fq: [g.qname for g in ctx.res.callees(f, include_ambiguous=False) if g.qname in closure] for fq, f in closure.items()}
+    # Tarjan SCC
+    index, low, onstack, stack, sccs = {}, {}, set(), [], []
+    import sys
+    sys.setrecursionlimit(10000)
+
+    def strong(v):
+        index[v] = low[v] = len(index)
+        stack.append(v)
+        onstack.add(v)
+        for w in graph.get(v, []):
+            if w not in index:
+                strong(w)
+                low[v] = min(low[v], low[w])
+            elif w in onstack:
+                low[v] = min(low[v], index[w])
+        if low[v] == index[v]:
+            comp = []
+            while True:
+                w = stack.pop()
+                onstack.discard(w)
+                comp.append(w)
+                if w == v:
+                    break
+            sccs.append(comp)
+    for v in graph:
+        if v not in index:
+            strong(v)
+    cyc = [c for c in sccs if len(c) > 1 or (c[0] in graph.get(c[0], []))]
+    for c in cyc:
+        f = closure[c[0]]
+        ctx.fail("R05.5", f, f.node, f"recursion in the read-mode closure through {sorted(c)}: its depth is controlled by the input and has no recognised bound", construct="recursion " + ",".join(sorted(c)))
+    ctx.ok("R05.5", f"call graph of closure(read API): {len(graph)} functions, {sum(len(v) for v in graph.values())} edges, no cycle" if not cyc else "cycles found")
+
+
 def run(ctx: Ctx) -> None:
     r05_4(ctx)
     closure = read_closure(ctx)
@@ -510,3 +547,4 @@ def run(ctx: Ctx) -> None:
     r05_1(ctx, closure)
     r05_2(ctx, closure)
     r05_3(ctx, closure)
+    r05_5(ctx, closure)
